@@ -224,9 +224,30 @@ def run_literal_dry(desc):
                 bad = f"the real run after the dry run returned {t_!r} (expected 69)"
         except BaseException as e:
             bad = f"the real run after the dry run raised {e!r} (cause {e.__cause__!r}) - the dry run used up something"
-    r_ = {"status": "ok", "counters": {"dry_runs": 1, "literal_object_dry_runs": 1}, "nontrivial": True, "sig": f"litdry|{desc['seed'] % 100000}"}
+    plain_checked = 0
+    if bad is None:
+        # an output that contains no symbolic node at all (a constant, an empty list of requested nodes, a plain structure), alone or next to nodes: the plan and
+        # output node the dry run returns, executed by themselves, yield what the real run yields
+        plan2 = uberjob.Plan()
+        x = plan2.call(operator.add, 1, 2)
+        reg2 = uberjob.Registry() if rng.random() < 0.5 else None
+        for plain in (7, [], {}, {"rows": (1, 2, 3)}, "text", (), [1, [2, {"k": None}]], [[], x], {"n": x, "c": 7}):
+            kw2 = dict(output=plain, registry=reg2, progress=None, max_workers=1)
+            try:
+                real = uberjob.run(plan2, **kw2)
+                dp, dn = uberjob.run(plan2, dry_run=True, **kw2)
+                alone = uberjob.run(dp, output=dn, progress=None, max_workers=1)
+            except BaseException as e:
+                bad = f"output={plain!r}: {e!r}"
+                break
+            plain_checked += 1
+            if alone != real or type(alone) is not type(real):
+                bad = (f"output={plain!r} (no symbolic node in it): the real run returns {real!r}, but executing the plan and output node returned by the dry run "
+                       f"(output node {dn!r:.60}) yields {alone!r}")
+                break
+    r_ = {"status": "ok", "counters": {"dry_runs": 1, "literal_object_dry_runs": 1, "plain_outputs_dry_vs_real": plain_checked}, "nontrivial": True, "sig": f"litdry|{desc['seed'] % 100000}"}
     if bad:
-        r_.update(status="violation", mechanism="dry-run", detail=f"[literals that are user objects, registry={'yes' if registry is not None else 'no'}] {bad}")
+        r_.update(status="violation", mechanism="dry-run", detail=f"[literals that are user objects / plain outputs, registry={'yes' if registry is not None else 'no'}] {bad}")
     return r_
 
 
